@@ -19,6 +19,9 @@ struct Outcome {
     /// "ok <dst> <stats>" | "err <dst> -" | "export-failed …" | "panic …"
     real: String,
     dst: Option<String>,
+    /// second generation: the dump after exporting the imported store and importing that again
+    dst2: Option<String>,
+    gen2_err: Option<String>,
     lines: Option<String>,
     feat: Features,
     executed: Vec<String>,
@@ -74,6 +77,8 @@ fn run_case(ops: &[Op]) -> Outcome {
             src: src.text.clone(),
             real: String::new(),
             dst: None,
+            dst2: None,
+            gen2_err: None,
             lines: None,
             feat: b.feat.clone(),
             executed: b.executed.clone(),
@@ -96,6 +101,25 @@ fn run_case(ops: &[Op]) -> Outcome {
                 o.dst_nodes = d.n_nodes;
                 o.diff_hint = diff_hint(&src, &d);
                 o.dst = Some(d.text);
+                // second generation: an imported store keeps scalars in columns only — export it
+                // again and import that
+                let mut buf2 = vec![];
+                match export_tenant(&dst, &mut buf2) {
+                    Err(e) => o.gen2_err = Some(format!("export of the imported store: {}", e)),
+                    Ok(_) => {
+                        let mut dst2 = GraphStore::new();
+                        match import_tenant(&mut dst2, &buf2[..]) {
+                            Ok(_) => {
+                                let d2 = dump_store(&dst2);
+                                if o.diff_hint.is_empty() {
+                                    o.diff_hint = diff_hint(&src, &d2);
+                                }
+                                o.dst2 = Some(d2.text);
+                            }
+                            Err(e) => o.gen2_err = Some(format!("import of the second-generation export: {}", e)),
+                        }
+                    }
+                }
             }
             Err(e) => {
                 let d = dump_store(&dst);
@@ -115,6 +139,8 @@ fn run_case(ops: &[Op]) -> Outcome {
                 src: String::new(),
                 real: format!("panic {}", msg),
                 dst: None,
+                dst2: None,
+                gen2_err: None,
                 lines: None,
                 feat: Features::default(),
                 executed: vec![],
@@ -284,6 +310,7 @@ fn main() {
             lines.push("noop".to_string());
             lines.push("noop".to_string());
             lines.push("noop".to_string());
+            lines.push("noop".to_string());
             continue;
         }
         lines.push(format!("rt {}", o.src));
@@ -292,14 +319,19 @@ fn main() {
             _ => "noop".to_string(),
         });
         lines.push(format!("export {}", o.src));
+        lines.push(match &o.dst2 {
+            Some(d) => format!("spec-rt {} {}", o.src, d),
+            None => "noop".to_string(),
+        });
     }
     let replies = driver::par_batch(&exe, &lines, 12);
 
     let mut first_break: Option<(String, String)> = None;
     for (k, o) in outcomes.iter().enumerate() {
-        let m = &replies[3 * k];
-        let s = &replies[3 * k + 1];
-        let ex = &replies[3 * k + 2];
+        let m = &replies[4 * k];
+        let s = &replies[4 * k + 1];
+        let ex = &replies[4 * k + 2];
+        let s2 = &replies[4 * k + 3];
         let nt = o.feat.rels > 0 && o.feat.edgy_string && o.feat.nonscalar;
         rep.case(&o.ops_txt, nt);
         for e in &o.executed {
@@ -329,6 +361,20 @@ fn main() {
         );
         // an export that cannot be imported, a failing export, a panic: violations by themselves
         let spec_ok = s == "ok" && o.import_err.is_none() && !o.src.is_empty() && o.dst.is_some();
+        if spec_ok && (s2 != "ok" || o.gen2_err.is_some()) {
+            let sig = format!("second-generation:{}", if o.gen2_err.is_some() { "error".to_string() } else { signature(o, s2) });
+            rep.count(&format!("spec_violation:{}", sig));
+            rep.spec_violation(
+                &known,
+                &sig,
+                &format!("export→import→export→import does not reproduce the graph ({}; {:?}) for `{}`", s2, o.gen2_err, o.ops_txt),
+                &format!("{}\ngen2  {:?}\nspec2 {}", body, o.dst2, s2),
+            );
+            continue;
+        }
+        if spec_ok {
+            rep.count("second-generation-checked");
+        }
         if !spec_ok {
             let sig = signature(o, s);
             rep.count(&format!("spec_violation:{}", sig));
